@@ -1,6 +1,7 @@
 import PEval.Model.Basic
 import PEval.Model.Threshold
 import PEval.Model.Enums
+import PEval.Model.Label
 import PEval.Gen.Config
 import PEval.Gen.Labels
 /-!
@@ -311,5 +312,61 @@ def passFailConfig (nAll : Nat) (a : Dict) : Except Err (Nat × Dict) :=
       match optCheck (get a "confidence_threshold_list") n with
       | .error e => .error e
       | .ok conf => .ok (n, [("matching_threshold_list", mt), ("confidence_threshold_list", conf)])
+
+/-! ## audit round 2: the target-label LIST of a configuration (not only its length)
+
+`targetLabelCount` above stands for `len(set_target_lists(..))`.  The functions below model the list itself, through
+the converter model of C14 (`PEval.Label`), so that "the number of target labels" of the theorems is the length of
+the converted target-label list of the SAME configuration (`targetLabelCount_eq_length`). -/
+
+/-- the text of a `str` value ("" for anything else; only consulted on values known to be `str`) -/
+def strOf : PyVal → String
+  | .str s => s
+  | _ => ""
+
+/-- `set_target_lists(v, label_converter)` as the list of label member names: `None` / empty → every member of the
+label family; a list of strings → `convert_name` of every entry; a non-empty `str` is iterated character by
+character; `len(number)` is a `TypeError`; `name.lower()` of a non-string entry an `AttributeError` -/
+def targetLabelList (v : PyVal) (t : Label.Table) (family : String) : Except Err (List String) :=
+  match v with
+  | .none => .ok (Label.setTargetLists none t family)
+  | .list xs =>
+    if xs.length == 0 then .ok (Label.setTargetLists (some []) t family)
+    else if xs.all isStr then .ok (Label.setTargetLists (some (xs.map strOf)) t family)
+    else .error "AttributeError"
+  | .str s =>
+    if s.length == 0 then .ok (Label.setTargetLists (some []) t family)
+    else .ok (Label.setTargetLists (some (s.toList.map fun c => String.singleton c)) t family)
+  | _ => .error "TypeError"
+
+/-- `e_cfg.get("merge_similar_labels", False)` as `_get_autoware_pairs` tests it (`if merge_similar_labels:`) -/
+def mergeFlag (d : Dict) : Bool := truthy ((d.lookup "merge_similar_labels").getD (.bool false))
+
+/-- the converter a configuration builds: `LabelConverter(evaluation_task, merge_similar_labels, label_prefix)`
+(`task` is the task's string value; the table and the label family, or the constructor's exception) -/
+def converterOf (task : String) (d : Dict) : Except Err (Label.Table × String) :=
+  match d.lookup "label_prefix" with
+  | none => .error "KeyError"
+  | some (.str p) => Label.tableFor p (mergeFlag d) ((Enums.setTask task).getD task)
+  | some _ => .error "ValueError"
+
+/-- `PerceptionEvaluationConfig(...).target_labels` (label member names), with the exceptions raised on the way to
+it in the order of the constructor: task check, matching policy, label converter, `set_target_lists` -/
+def configTargetLabels (d : Dict) : Except Err (List String) :=
+  match checkTasks Gen.perceptionSupportTasks d with
+  | .error e => .error e
+  | .ok task =>
+    match matchingPolicy d with
+    | .error e => .error e
+    | .ok () =>
+      match converterOf task d with
+      | .error e => .error e
+      | .ok (t, fam) => targetLabelList (get d "target_labels") t fam
+
+/-- DEFECTIVE variant of `_extract_params` (used only in an `example`): `target_labels` is not consulted, every
+per-label list is sized by the whole label enum.  All lists of its result still share one length (so the statement
+"all exposed lists have length `nLabels`" holds of it); that length is not the number of target labels. -/
+def extractParams_ignoreTargets (task : String) (nAll : Nat) (d : Dict) : Except Err (Nat × Dict × Dict) :=
+  extractParams task nAll (d.filter (fun kv => kv.1 != "target_labels"))
 
 end PEval.Config
